@@ -19,8 +19,10 @@ package contractcourt
 //              arbitrator inserted (type + htlc index).
 //
 // The freshly created resolvers are marked resolved at insertion time so that
-// their own (asynchronous, chain-driven) logic stays inert: C12 is about the
-// arbitrator's decisions, resolver behaviour is C13's subject.
+// their own (asynchronous, chain-driven) logic stays inert at this level: what
+// the HTLC resolvers do on chain events is exercised separately by the
+// resolver-level stream in zz_c12_res_verif_test.go (TestVerifC12Res); restart
+// and persistence of resolvers are C13's subject.
 
 import (
 	"bufio"
